@@ -24,7 +24,9 @@ TApply == /\ E.ev = "apply" /\ Apply(E.w, E.k)
 TPrepend == /\ E.ev = "prepend" /\ Prepend(E.k, E.g, E.h, E.p)
             /\ Class(last'.res) = E.class
             /\ upd'[E.k].first = E.first /\ upd'[E.k].last = E.last
-TNext == l <= Len(Tr) /\ l' = l + 1 /\ (TReset \/ TRevoke \/ TIssue \/ TMake \/ TDiscard \/ TApply \/ TPrepend)
+TPrependForeign == /\ E.ev = "prependforeign" /\ PrependForeign(E.k, E.g, E.h, E.p)
+                   /\ E.class = "error" /\ upd[E.k].first = E.first /\ upd[E.k].last = E.last
+TNext == l <= Len(Tr) /\ l' = l + 1 /\ (TReset \/ TRevoke \/ TIssue \/ TMake \/ TDiscard \/ TApply \/ TPrepend \/ TPrependForeign)
 TInit == Init /\ l = 1
 TSpec == TInit /\ [][TNext]_<<vars, l>>
 TMonotone == [][(l <= Len(Tr) /\ Tr[l].ev # "reset") => MonotoneA]_<<vars, l>>
